@@ -77,6 +77,17 @@ func predicateUnder(fn *ssa.Function, atoms atomFn, asg uint, bind map[*ssa.Para
 			return t
 		}
 		switch x := v.(type) {
+		case *ssa.Call:
+			// a predicate that calls another one (isEmptyList -> is1Hit)
+			if sc := x.Call.StaticCallee(); sc != nil && sc.Pkg == fn.Pkg && sc.Blocks != nil && sc != fn && sc.Signature.Results().Len() == 1 && isBoolType(sc.Signature.Results().At(0).Type()) {
+				inner := map[*ssa.Parameter]tri{}
+				for i, p := range sc.Params {
+					if i < len(x.Call.Args) && isBoolType(p.Type()) {
+						inner[p] = eval(x.Call.Args[i], path)
+					}
+				}
+				return predicateUnder(sc, atoms, asg, inner, depth+1)
+			}
 		case *ssa.Const:
 			if x.Value != nil && x.Value.Kind() == constant.Bool {
 				if constant.BoolVal(x.Value) {
